@@ -20,7 +20,11 @@ NS = "models.numeric_symbolic_operations"
 EXPLANATION = (
     "Thin claim: equivalence of sympy-simplified text for all valuations is out of reach of a static argument; only necessary "
     "conditions are decided. All function rules read the public function with its private helpers inlined and identify values by "
-    "def-use provenance, not by names. C13.vocab: every operator string of SYMPY_OP_TO_PDDL_OP is one of + - * / (or a numeral / "
+    "def-use provenance, not by names; before that, comprehensions / zip / map / enumerate / loops over sequences whose length is "
+    "known from the source (displays, module constants, dict views) are written out element by element, operator.attrgetter / "
+    "itemgetter / methodcaller applications and **{..} keyword expansions are written as plain attribute reads / calls, fields read "
+    "from NamedTuple / dataclass records are the constructor arguments, and `x is None` tests are decided when every definition of x "
+    "that is live under the valuation is None / an object. C13.vocab: every operator string of SYMPY_OP_TO_PDDL_OP is one of + - * / (or a numeral / "
     "empty for atoms), and so is every operator that the printer writes out itself ('(<op> ' in the string shapes built by "
     "convert_expr_to_pddl and its helpers). C13.mangle: the fluent -> symbol naming must be injective: the expression handed to symbols()/Symbol() is "
     "evaluated (AST interpretation of re.sub / compiled patterns / str.replace / translate / join-filter chains on constants) for "
@@ -30,7 +34,8 @@ EXPLANATION = (
     "alike) must convert round(x, d), not x (truncation); under an exact x.is_integer() test int(x) is fine; no integer conversion "
     "may be used when the rounded value is not an integer. C13.atoms: for every number class sympy can return (Float, Integer, "
     "Zero, One, NegativeOne, Symbol, Rational, Half) a test of extract_atom on the class of the expression (== / is / in a tuple or "
-    "table / isinstance) that names the class is reachable under the valuation 'the expression has that class', and the class is a "
+    "table / isinstance / look-up in a table keyed by class: TABLE.get(cls) tested against None or used as a truth value, TABLE[cls], "
+    "a dispatch loop over (class, printer) records) that names the class is reachable under the valuation 'the expression has that class', and the class is a "
     "key of SYMPY_OP_TO_PDDL_OP. C13.sides: the text returned by simplify_inequality / simplify_equality / the tree method has the "
     "shape '(op left right)' (string shapes: f-string, format, concatenation, intermediate names) where op is the operator "
     "parameter / '=' / the root value and left / right derive from the first / second part of the split input (lhs / rhs of the "
@@ -60,7 +65,76 @@ def _fn(repo: Repo, spec: str) -> FuncInfo:
             continue
         if (x.cls is None and x.name not in API_FUNCTIONS and f0.mod.short.endswith(NS)) or (x.cls == TREE_CLASS and x.name not in API_METHODS):
             also.add(x.name)
-    return L.fn(repo, spec, also=also or None)
+    return U.unroll(repo, L.fn(repo, spec, also=also or None))
+
+
+_NOT_NONE_CALLS = {"list", "dict", "tuple", "set", "frozenset", "str", "int", "float", "bool", "sorted", "repr", "format", "len"}
+
+
+class _Guards(L.Guards):
+    """L.Guards that also decides `x is None` / `x is not None` / `x == None` / `x != None` for an Optional result: when
+    every definition of the local name x that is reachable under the valuation is the constant None the test is decided that way,
+    when every one constructs an object (class / record of the repository, display, text) the other way.  This is what an inlined
+    `return None` guard clause of a helper followed by `if result is None: return None` in the caller amounts to."""
+
+    def __init__(self, repo: Repo, f: FuncInfo, matcher):
+        super().__init__(f, matcher)
+        self.repo = repo
+
+    def _noneness(self, e: ast.AST, at: Optional[int], seen: Set[int], depth: int = 0) -> Optional[bool]:
+        """True: certainly None, False: certainly an object, None: unknown"""
+        if depth > 6:
+            return None
+        if isinstance(e, ast.Constant):
+            return e.value is None
+        if isinstance(e, (ast.Tuple, ast.List, ast.Dict, ast.Set, ast.JoinedStr, ast.ListComp, ast.SetComp, ast.DictComp, ast.GeneratorExp, ast.Lambda)):
+            return False
+        if isinstance(e, ast.Call):
+            cn = callee_name(e)
+            if isinstance(e.func, ast.Name) and (cn in self.repo.classes or U.record_fields(self.repo, cn) is not None or
+                                                 (cn in _NOT_NONE_CALLS and self.repo.lookup(self.f.mod.name, cn) is None)):
+                return False
+            return None
+        if isinstance(e, ast.IfExp):
+            a, b = self._noneness(e.body, at, seen, depth + 1), self._noneness(e.orelse, at, seen, depth + 1)
+            return a if a == b else None
+        if isinstance(e, ast.Name) and isinstance(e.ctx, ast.Load):
+            n = self.g.node_containing(e) if at is None else at
+            if n is None:
+                return None
+            defs = [d for d in L.rd_of(self.f).defs_reaching(n, e.id) if d in seen]
+            if not defs:
+                return None
+            out = set()
+            for d in defs:
+                st = self.g.stmt[d]
+                v = None
+                if d != self.g.entry and isinstance(st, ast.Assign) and len(st.targets) == 1 and isinstance(st.targets[0], ast.Name):
+                    v = st.value
+                elif d != self.g.entry and isinstance(st, ast.AnnAssign) and isinstance(st.target, ast.Name):
+                    v = st.value
+                out.add(self._noneness(v, d, seen, depth + 1) if v is not None else None)
+            return out.pop() if len(out) == 1 else None
+        return None
+
+    def _val(self, valuation, seen):
+        base = super()._val(valuation, seen)
+        if seen is None:
+            return base
+
+        def val(e):
+            v = base(e)
+            if v is not None:
+                return v
+            if isinstance(e, ast.Compare) and len(e.ops) == 1 and isinstance(e.ops[0], (ast.Is, ast.IsNot, ast.Eq, ast.NotEq)):
+                for x, y in ((e.left, e.comparators[0]), (e.comparators[0], e.left)):
+                    if isinstance(y, ast.Constant) and y.value is None and isinstance(x, ast.Name):
+                        nn = self._noneness(x, None, seen)
+                        if nn is not None:
+                            return nn == isinstance(e.ops[0], (ast.Is, ast.Eq))
+            return None
+
+        return val
 
 
 def _class_name(e: ast.AST) -> Optional[str]:
@@ -310,7 +384,7 @@ def rule_round(repo: Repo, rid: str = "C13.round", specs=None) -> RuleResult:
 def _round_in(repo: Repo, r: RuleResult, rid: str, f: FuncInfo, must_have: bool) -> None:
     T = _IntTests(repo, f)
     p = T.p
-    G = L.Guards(f, T.matcher)
+    G = _Guards(repo, f, T.matcher)
     atoms = {a.lstrip("!") for a, _n, _v in T.tests.values()}
     test_bases: Set[tuple] = set()
     for _a, _n, v in T.tests.values():
@@ -416,6 +490,7 @@ class _ClassTests:
         self.repo, self.f = repo, f
         self.p = L.prov(repo, f)
         self.tests: Dict[int, Tuple[str, Set[str], bool, ast.AST]] = {}
+        self.uninterpreted: List[ast.AST] = []         # tests on the class of the parameter whose class operand is not understood
         for n in ast.walk(f.node):
             try:
                 t = self._classify(n)
@@ -442,7 +517,21 @@ class _ClassTests:
                 out |= s
             return out
         if isinstance(e, ast.Dict):
-            return self._classes(ast.Tuple(elts=[k for k in e.keys if k is not None], ctx=ast.Load()), depth + 1)
+            out = set()
+            for k, v in zip(e.keys, e.values):
+                s = self._classes(k if k is not None else v, depth + 1)         # `{**OTHER_TABLE, Cls: ..}`
+                if s is None or (k is not None and len(s) != 1):
+                    return None
+                out |= s
+            return out
+        if isinstance(e, ast.BinOp) and isinstance(e.op, (ast.BitOr, ast.Add)):
+            a, b = self._classes(e.left, depth + 1), self._classes(e.right, depth + 1)
+            return None if a is None or b is None else a | b
+        if isinstance(e, ast.Call) and callee_name(e) == "dict" and isinstance(e.func, ast.Name) and len(e.args) == 1 and not e.keywords:
+            a = e.args[0]
+            if isinstance(a, (ast.Tuple, ast.List)) and all(isinstance(x, (ast.Tuple, ast.List)) and len(x.elts) == 2 for x in a.elts):
+                return self._classes(ast.Tuple(elts=[x.elts[0] for x in a.elts], ctx=ast.Load()), depth + 1)
+            return self._classes(a, depth + 1) if isinstance(a, (ast.Name, ast.Dict)) else None
         if isinstance(e, ast.Call) and callee_name(e) in ("tuple", "set", "frozenset", "list", "keys") and (e.args or isinstance(e.func, ast.Attribute)):
             return self._classes(e.args[0] if e.args else e.func.value, depth + 1)
         if isinstance(e, ast.Attribute):
@@ -456,6 +545,9 @@ class _ClassTests:
                 if len(defs) != 1:
                     return None
                 st = self.p.g.stmt[next(iter(defs))]
+                if isinstance(st, ast.Assign) and len(st.targets) == 1:
+                    v = self.p._paired(st.targets[0], st.value, e.id)          # `cls, printer = (Integer, f)` names Integer
+                    return self._classes(v, depth + 1) if v is not None else None
                 if isinstance(st, (ast.Assign, ast.AnnAssign)) and st.value is not None:
                     return self._classes(st.value, depth + 1)
                 return None
@@ -467,7 +559,91 @@ class _ClassTests:
             return {e.id}
         return None
 
+    def _single_def(self, e: ast.Name) -> Optional[ast.AST]:
+        try:
+            defs = self.p.rd.defs_reaching(self.p.node_of(e), e.id)
+        except KeyError:
+            return None
+        if len(defs) != 1:
+            return None
+        d = next(iter(defs))
+        if d == self.p.g.entry:
+            return None
+        st = self.p.g.stmt[d]
+        if isinstance(st, ast.Assign) and len(st.targets) == 1:
+            return self.p._paired(st.targets[0], st.value, e.id)
+        if isinstance(st, ast.AnnAssign) and isinstance(st.target, ast.Name):
+            return st.value
+        return None
+
+    def _truthy_values(self, table: ast.AST, depth: int = 0) -> bool:
+        """every value of the table display is a callable / a non-empty text (so `if entry:` means `the key is in the table`)"""
+        if depth > 3:
+            return False
+        if isinstance(table, ast.Name):
+            v = self._single_def(table)
+            if v is None:
+                r = self.repo.lookup(self.f.mod.name, table.id)
+                v = r[1] if r and r[0] == "const" else None
+            return v is not None and self._truthy_values(v, depth + 1)
+        if isinstance(table, ast.Dict):
+            for k, v in zip(table.keys, table.values):
+                if k is None:
+                    if not self._truthy_values(v, depth + 1):
+                        return False
+                    continue
+                if isinstance(v, ast.Lambda) or (isinstance(v, ast.Constant) and isinstance(v.value, str) and v.value):
+                    continue
+                if isinstance(v, (ast.Name, ast.Attribute)):
+                    nm = v.id if isinstance(v, ast.Name) else v.attr
+                    r = self.repo.lookup(self.f.mod.name, nm) if isinstance(v, ast.Name) else None
+                    if (r and r[0] in ("func", "external")) or (isinstance(v, ast.Attribute) and isinstance(v.value, ast.Name)
+                                                                and (self.repo.lookup(self.f.mod.name, v.value.id) or ("",))[0] == "module"):
+                        continue
+                if isinstance(v, ast.Call) and callee_name(v) in ("partial", "attrgetter", "methodcaller", "itemgetter"):
+                    continue
+                return False
+            return True
+        return False
+
+    def _lookup(self, e: ast.AST, depth: int = 0):
+        """e is (a name bound once to) TABLE.get(<class of the parameter>) / TABLE[<class of the parameter>]:
+        ('get' | 'item', classes that are keys of the table, table expression)"""
+        if depth > 3:
+            return None
+        if isinstance(e, ast.Name) and isinstance(e.ctx, ast.Load):
+            v = self._single_def(e)
+            return self._lookup(v, depth + 1) if v is not None and not isinstance(v, ast.Name) else None
+        if isinstance(e, ast.Call) and isinstance(e.func, ast.Attribute) and e.func.attr == "get" and not e.keywords and 1 <= len(e.args) <= 2:
+            if len(e.args) == 2 and not (isinstance(e.args[1], ast.Constant) and e.args[1].value is None):
+                return None
+            if self._is_class_of_param(e.args[0]):
+                cs = self._classes(e.func.value)
+                if cs is not None:
+                    return "get", cs, e.func.value
+        if isinstance(e, ast.Subscript) and isinstance(e.ctx, ast.Load) and not isinstance(e.slice, ast.Slice) and self._is_class_of_param(e.slice):
+            cs = self._classes(e.value)
+            if cs is not None and isinstance(e.value, (ast.Name, ast.Attribute, ast.Dict)):
+                return "item", cs, e.value
+        return None
+
     def _classify(self, n: ast.AST):
+        if isinstance(n, ast.Compare) and len(n.ops) == 1 and isinstance(n.ops[0], (ast.Is, ast.IsNot, ast.Eq, ast.NotEq)):
+            for x, y in ((n.left, n.comparators[0]), (n.comparators[0], n.left)):
+                if isinstance(y, ast.Constant) and y.value is None and not isinstance(x, ast.Constant):
+                    lk = self._lookup(x)
+                    if lk is not None and lk[0] == "get":
+                        # `TABLE.get(cls) is None`: true exactly for the classes that are not keys
+                        return "exact", lk[1], isinstance(n.ops[0], (ast.Is, ast.Eq))
+        if isinstance(n, ast.Subscript):
+            lk = self._lookup(n)
+            if lk is not None:
+                return "lookup", lk[1], False         # not a test (a missing key raises): it only names the classes it serves
+        if isinstance(n, ast.Name) and isinstance(n.ctx, ast.Load):
+            lk = self._lookup(n)
+            if lk is not None and lk[0] == "get" and self._truthy_values(lk[2]):
+                return "exact", lk[1], False           # the entry used as a truth value
+            return None
         if isinstance(n, ast.Compare) and len(n.ops) == 1:
             op = n.ops[0]
             a, b = n.left, n.comparators[0]
@@ -477,16 +653,20 @@ class _ClassTests:
                         cs = self._classes(y)
                         if cs is not None and len(cs) == 1:
                             return "exact", cs, isinstance(op, (ast.NotEq, ast.IsNot))
+                        self.uninterpreted.append(n)
+                        break
             if isinstance(op, (ast.In, ast.NotIn)) and self._is_class_of_param(a):
                 cs = self._classes(b)
                 if cs is not None:
                     return "exact", cs, isinstance(op, ast.NotIn)
+                self.uninterpreted.append(n)
         if isinstance(n, ast.Call) and isinstance(n.func, ast.Name) and n.func.id == "isinstance" and len(n.args) == 2:
             tr = self.p.trace(n.args[0])
             if tr and all(x[0].startswith("param:") and len(x) == 1 for x in tr):
                 cs = self._classes(n.args[1])
                 if cs is not None:
                     return "isinstance", cs, False
+                self.uninterpreted.append(n)
         return None
 
     def truth(self, n: ast.AST, cls: str) -> Optional[bool]:
@@ -494,6 +674,8 @@ class _ClassTests:
         if t is None:
             return None
         kind, cs, neg, _n = t
+        if kind == "lookup":
+            return None
         hit = cls in cs or (kind == "isinstance" and bool(_ANCESTORS.get(cls, set()) & cs))
         return hit != neg
 
@@ -516,13 +698,16 @@ def rule_atoms(repo: Repo) -> RuleResult:
             v = T.truth(e, cls)
             return None if v is None else ("is" if v else "!is")
 
-        G = L.Guards(f, matcher)
+        G = _Guards(repo, f, matcher)
         seen = G.reach({"is": True})
         returns = any(G.g.kind[n] == "return" for n in seen)          # the class is not simply rejected
         handled = returns and any(T.names(n, cls) and G.reaches_expr({"is": True}, n, seen=seen) for _k, _c, _ng, n in T.tests.values())
         if handled and cls in tab:
             r.ok({"class": cls})
         else:
+            if not handled and T.uninterpreted:
+                raise AnalysisError(f"extract_atom: the test {unparse(T.uninterpreted[0], 60)} on the class of the expression is not interpreted "
+                                    f"(cannot decide whether {cls} is handled)")
             where = [w for w, ok in (("extract_atom", handled), ("SYMPY_OP_TO_PDDL_OP", cls in tab)) if not ok]
             r.fail(Finding("C13.atoms", f, f"atom-class:{cls}", f"sympy {cls} is not handled by {where}: an expression such as x/2 raises KeyError / ValueError"))
     r.require_sites(8)
@@ -910,7 +1095,7 @@ def rule_eliminate(repo: Repo) -> RuleResult:
     f = _fn(repo, "NumericalExpressionTree.extract_eliminated_expressions")
     E = _Elim(repo, f)
     apply_op = {"+": lambda a, b: a + b, "-": lambda a, b: a - b, "*": lambda a, b: a * b, "/": lambda a, b: a / b}
-    guards = {op: L.Guards(f, E.matcher_for(op)) for op in OPERATORS}
+    guards = {op: _Guards(repo, f, E.matcher_for(op)) for op in OPERATORS}
     admitted = []
     for op in OPERATORS:
         G = guards[op]
